@@ -71,7 +71,7 @@ def cases(tier, seed):
                 cfg["start_depot"] = False
             for B in ((1, 2, 5) if q else (1, 2, 3, 5, 8)):
                 for decode, ks in (("multistart_greedy", (2, 3, n)), ("multistart_sampling", (3,)), ("sampling", (2, 4))):
-                    if decode.startswith("multistart") and name in ("svrp",):
+                    if decode.startswith("multistart") and name in ():
                         # SVRP: the start rule is a recorded finding (forced starts ignore skills) - its rollouts would
                         # only repeat that finding
                         continue
